@@ -180,6 +180,7 @@ def _forward_ref(repo, ob, failure):
         (['<box id="z" cx="#y~cx" cy="#y~cy" width="30" height="30"/>', '<rect id="a" xy="#z|h 5" wh="10"/>', '<rect id="y" xy="100 100" wh="10"/>'], [2, 0, 1]),
         (['<point id="z" cx="#y~cx" cy="#y~cy"/>', '<rect id="a" xy="#z|h 5" wh="10"/>', '<rect id="y" xy="100 100" wh="10"/>'], [2, 0, 1]),
         (['<use href="#a" x="100"/>', '<rect id="a" xy="#b|h" wh="10"/>', '<rect id="b" xy="0" wh="10"/>'], [2, 1, 0]),
+        (['<use id="u" href="#s" xy="#q|h 5"/>', '<g id="s"><rect xy="#q@tl" wh="20"/></g>', '<rect id="q" xy="0" wh="10"/>'], [2, 1, 0]),
         (['<circle id="d" cxy="#a|v" r="3"/>', '<rect xy="#d|h" wh="2"/>', '<rect id="a" xy="10" wh="4"/>'], [2, 0, 1]),
         (['<line id="d" xy1="#a@br" x2="30" y2="30"/>', '<rect surround="#d"/>', '<rect id="a" xy="10" wh="4"/>'], [2, 0, 1]),
         (['<rect id="d" xy="#a|h" wh="4"/>', '<rect xy="#d|v" wh="2"/>', '<rect id="a" xy="10" wh="4"/>'], [2, 0, 1]),
